@@ -297,12 +297,23 @@ type Service struct {
 	Security []Requirement `json:"security,omitempty"`
 	// HTTP level
 	BasePath  string           `json:"base_path,omitempty"`
-	ErrorResp []*ErrorResponse `json:"error_resp,omitempty"`
-	Files     []FileServer     `json:"files,omitempty"`
+	// MoreBasePaths: further Path(...) calls of the service HTTP expression (only with BasePath set):
+	// every route and file server of the service is mounted under each base path
+	MoreBasePaths []string         `json:"more_base_paths,omitempty"`
+	ErrorResp     []*ErrorResponse `json:"error_resp,omitempty"`
+	Files         []FileServer     `json:"files,omitempty"`
 	HasHTTP   bool             `json:"has_http,omitempty"`
 	HasGRPC   bool             `json:"has_grpc,omitempty"`
 	// Meta written in the service body (openapi tags, extensions ...)
 	Meta [][]string `json:"meta,omitempty"`
+}
+
+// BasePaths lists the base paths of the service ([""] when it declares none).
+func (s *Service) BasePaths() []string {
+	if s.BasePath == "" {
+		return []string{""}
+	}
+	return append([]string{s.BasePath}, s.MoreBasePaths...)
 }
 
 // API holds the API-level declarations.
